@@ -1,7 +1,10 @@
 package c02
 
 import (
+	"archive/zip"
+	"bytes"
 	"context"
+	"crypto/sha1"
 	"encoding/json"
 	"fmt"
 	"sort"
@@ -9,6 +12,7 @@ import (
 
 	"github.com/quay/claircore"
 	"github.com/quay/claircore/indexer"
+	"github.com/quay/claircore/java"
 	"github.com/quay/claircore/nodejs"
 	"github.com/quay/claircore/python"
 	"github.com/quay/claircore/ruby"
@@ -366,4 +370,83 @@ func runOsOwned(r *hx.Run, rnd *hx.Rand, cfg hx.Config) error {
 		}
 	}
 	return nil
+}
+
+// ---- java: jars carrying Maven's pom.properties ----
+
+func renderJar(r *hx.Rand, group, artifact, version string) []byte {
+	var buf bytes.Buffer
+	zw := zip.NewWriter(&buf)
+	add := func(name, body string) {
+		w, _ := zw.Create(name)
+		w.Write([]byte(body))
+	}
+	if r.Chance(1, 2) {
+		zw.Create("META-INF/")
+	}
+	add("META-INF/MANIFEST.MF", "Manifest-Version: 1.0\r\nCreated-By: Apache Maven 3.8.6\r\nBuilt-By: someone\r\nBuild-Jdk: 11.0.16\r\n\r\n")
+	lines := []string{"artifactId=" + artifact, "groupId=" + group, "version=" + version}
+	for i := len(lines) - 1; i > 0; i-- {
+		j := r.Intn(i + 1)
+		lines[i], lines[j] = lines[j], lines[i]
+	}
+	nl := r.Pick("\n", "\r\n")
+	props := "#Generated by Maven" + nl + "#Tue Mar 01 10:00:00 UTC 2022" + nl + strings.Join(lines, nl) + nl
+	add("META-INF/maven/"+group+"/"+artifact+"/pom.properties", props)
+	add("META-INF/maven/"+group+"/"+artifact+"/pom.xml", "<project><groupId>decoy</groupId><artifactId>decoy</artifactId><version>0</version></project>")
+	add(strings.ReplaceAll(group, ".", "/")+"/Main.class", "\xca\xfe\xba\xbe0000")
+	zw.Close()
+	return buf.Bytes()
+}
+
+func runJava(r *hx.Run, rnd *hx.Rand, cfg hx.Config) {
+	groups := []string{"org.apache.commons", "com.google.guava", "org.springframework", "io.netty", "log4j", "com.fasterxml.jackson.core"}
+	arts := []string{"commons-lang3", "guava", "spring-core", "netty-all", "log4j-core", "jackson-databind", "a"}
+	for i := 0; i < cfg.N(60, 800) && !r.Stop(); i++ {
+		k := rnd.Intn(5)
+		var ents []ent
+		want := map[string]langTuple{}
+		for j := 0; j < k; j++ {
+			g, a := rnd.Pick(groups...), rnd.Pick(arts...)
+			v := fmt.Sprintf("%d.%d", rnd.Intn(30), rnd.Intn(30)) + rnd.Pick("", ".1", ".Final", "-SNAPSHOT", "-jre", ".RELEASE", "-rc1")
+			p := rnd.Pick("usr/share/java/", "opt/app/lib/", "app/BOOT-INF/lib/", "", "usr/lib/jvm/ext/") + a + "-" + v + rnd.Pick(".jar", ".jar", ".war", ".ear")
+			if _, dup := want[p]; dup {
+				continue
+			}
+			data := renderJar(rnd, g, a, v)
+			ents = append(ents, ent{path: p, data: data})
+			want[p] = langTuple{name: g + ":" + a, version: v, db: "maven:" + p, path: p, hint: fmt.Sprintf("sha1:%x", sha1.Sum(data))}
+		}
+		if rnd.Chance(1, 3) {
+			ents = append(ents, ent{path: "opt/app/lib/notes.jar", data: []byte("this is not a zip file at all, but long enough to pass the size check")}, ent{path: "opt/app/lib/.wh.x-1.0.jar", data: renderJar(rnd, "g", "x", "1.0")}, ent{path: "opt/app/lib/data.zip", data: renderJar(rnd, "g", "y", "1.0")})
+			r.Count("java:layer:decoys")
+		}
+		got, bad, ok := scanLang(&java.Scanner{}, ents)
+		r.Case(fmt.Sprintf("java %d %d", i, k), k > 0)
+		r.Count(fmt.Sprintf("java:jars:%d", k))
+		switch {
+		case !ok:
+			r.Fail("", "java.Scanner.Scan fails on well-formed jars")
+		case len(bad) > 0:
+			r.Fail("", "java constants: "+strings.Join(bad, ";"))
+		default:
+			for p := range got {
+				if _, w := want[p]; !w {
+					r.Fail("", "java: invented package at "+p)
+				}
+			}
+			for p, w := range want {
+				g, rep := got[p]
+				g.kind = ""
+				switch {
+				case !rep:
+					r.Fail("", "java: jar not reported: "+p)
+				case g != w:
+					r.Fail("", fmt.Sprintf("java: reported %+v, pom.properties states %+v", g, w))
+				default:
+					r.Count("java:oracle:exact")
+				}
+			}
+		}
+	}
 }
